@@ -11,6 +11,10 @@ verus! {
 pub uninterp spec fn cow_target<'a, B: ?Sized + ToOwned>(c: Cow<'a, B>) -> &'a B;
 pub open spec fn cow_sb(c: Cow<str>) -> Seq<u8> { sb(cow_target(c)) }
 pub uninterp spec fn string_sb(s: String) -> Seq<u8>;
+// the bytes of a String are the bytes of the str it dereferences to (same characters)
+pub broadcast axiom fn axiom_string_sb(s: String, t: &str)
+    requires t@ == s@,
+    ensures #![trigger sb(t), string_sb(s)] sb(t) == string_sb(s);
 pub assume_specification<'a, 'b, B: ?Sized + ToOwned> [<Cow<'a, B> as core::ops::Deref>::deref] (c: &'b Cow<'a, B>) -> (r: &'b B)
     ensures r == cow_target(*c);
 pub assume_specification<'a> [<Cow<'a, str> as From<&'a str>>::from] (s: &'a str) -> (c: Cow<'a, str>)
@@ -53,9 +57,13 @@ impl VxStrLower for str {
 pub open spec fn label_suffix(d: Seq<u8>, h: Seq<u8>) -> bool {
     d =~= h || (h.len() > d.len() && h[h.len() - d.len() - 1] == 46u8 && is_suffix(d, h))
 }
-// whether a string is a DNS host name (a domain, as opposed to an IP literal or something that is no host at all): the
-// judgement of the url crate's host parser, which is also what `Url::domain` reports for a web origin (trusted accessor)
-pub uninterp spec fn spec_is_dns_host(h: Seq<u8>) -> bool;
+// whether a string is a DNS host name as it stands (a domain, as opposed to an IP literal, something with a port or user info, or an
+// escaped spelling of a name).  The url crate's host parser (trusted accessor) first decodes percent escapes and maps Unicode to
+// punycode and lower case, then classifies: `spec_parsed_domain(h)` is the domain it arrives at, if any.  `h` itself is a DNS host
+// name when that domain is `h` up to ASCII case -- i.e. nothing had to be decoded or mapped.  (For a web origin `Url::domain` reports
+// the parsed, canonical host, so the question does not arise there.)
+pub uninterp spec fn spec_parsed_domain(h: Seq<u8>) -> Option<Seq<u8>>;
+pub open spec fn spec_is_dns_host(h: Seq<u8>) -> bool { spec_parsed_domain(h) matches Some(d) && spec_eq_ci(d, h) }
 pub mod url {
     use super::*;
     pub enum Host { Domain(String), Ipv4(u32), Ipv6(u128) }
@@ -63,7 +71,7 @@ pub mod url {
     impl Host {
         #[verifier::external_body]
         pub fn parse(input: &str) -> (r: Result<Host, ParseError>)
-            ensures (r matches Ok(Host::Domain(_))) == spec_is_dns_host(sb(input))
+            ensures match r { Ok(Host::Domain(d)) => spec_parsed_domain(sb(input)) == Some(string_sb(d)), _ => spec_parsed_domain(sb(input)) is None }
         { unimplemented!() }
     }
 }
